@@ -154,6 +154,9 @@ class QuicConnectionProtocol(asyncio.DatagramProtocol):
             if self._closed.is_set():
                 raise ConnectionError
             self._connected_waiter = self._loop.create_future()
+            # connect() may have been told not to transmit, in which case
+            # nothing has been sent and no timer is running yet
+            self.transmit()
             await asyncio.shield(self._connected_waiter)
 
     # asyncio.Transport
